@@ -464,6 +464,20 @@ def menu():
     out.append(('Path-A-binder-shadows', lambda: glom(5, (S(x=Val('outer')), (Path(A, 'x'), S.x))), 5))
     out.append(('Path-A-attr-binder', lambda: glom(5, (Path(A.x), S.x)), 5))
     out.append(('Path-S-reader', lambda: glom(5, (A.x, Path(S, 'x'))), 5))
+    def glommer_globals():
+        from glom import Glommer
+        g, h = Glommer(), Glommer()
+        g.glom(1, A.globals.seen)
+        return (g.glom(1, Coalesce(S.globals.seen, default='gone')), h.glom(1, Coalesce(S.globals.seen, default='gone')),
+                glom(1, Coalesce(S.globals.seen, default='gone')))
+    out.append(('globals-do-not-outlive-a-Glommer-call', glommer_globals, ('gone', 'gone', 'gone')))
+    # an inner binding to a value EQUAL to the outer one (a fresh empty list) is a binding of its own
+    out.append(('inner-equal-mutable-binding-is-its-own',
+                lambda: glom(1, (S(acc=[]), (S(acc=[]), S.acc.append(Val('inner')), S.acc), S.acc)), []))
+    out.append(('inner-equal-mutable-binding-per-item',
+                lambda: glom([1, 2], (S(acc=[]), [(S(acc=[]), S.acc.append(T), S.acc)], S.acc)), []))
+    out.append(('inner-equal-dict-binding-in-dict-values',
+                lambda: glom(1, (S(d={}), {'a': (S(d={}), S.d.setdefault(Val('k'), Val(1)), S.d), 'outer': S.d})), {'a': {'k': 1}, 'outer': {}}))
     out.append(('switch-key-binding-to-own-value', lambda: glom(3, Switch([(S(hit=Val('first')), S.hit)])), 'first'))
     out.append(('switch-key-binding-not-after', lambda: glom(3, (Switch([(S(hit=Val('first')), T)]), Coalesce(S.hit, default='gone'))), 'gone'))
     out.append(('regex-group-chains-forward', lambda: glom('ab12', (Regex(r'(?P<w>[a-z]+)(?P<n>\d+)'), S.n)), '12'))
